@@ -151,6 +151,15 @@ Check C19_vanishing_iff_domain : forall (PR : PrimeR) k tau, (1 <= k <= 32)%nat 
   vanishing_eval k tau = fzero <-> In tau (powers (domain_gen k) (Nat.pow 2 k)).
 Print Assumptions C19_vanishing_iff_domain.
 
+(* compute_vanishing_poly_over_coset(d), as coded by repeated multiplication, tabulates X^d - 1 on g*H
+   for every degree d *)
+Theorem C19_vanishing_over_coset : forall k d i, (i < Nat.pow 2 k)%nat ->
+  nth i (vanishing_over_coset k d) fzero = fsub (fpow_nat (fmul coset_gen (fpow_nat (domain_gen k) i)) d) fone.
+Proof. exact vanishing_over_coset_spec. Qed.
+Check C19_vanishing_over_coset : forall k d i, (i < Nat.pow 2 k)%nat ->
+  nth i (vanishing_over_coset k d) fzero = fsub (fpow_nat (fmul coset_gen (fpow_nat (domain_gen k) i)) d) fone.
+Print Assumptions C19_vanishing_over_coset.
+
 (* evaluate_all_lagrange_coefficients(tau)[i] = (interpolant of the i-th unit vector)(tau),
    for tau inside or outside the domain *)
 Theorem C19_lagrange_is_interpolant : forall (PR : PrimeR) num_coeffs tau i,
